@@ -43,9 +43,38 @@ def resumeOp (args : List String) : String :=
     | _, _, _ => "bad-op"
   | _ => "bad-op"
 
+/-- `lru <cap> <op>…` with op `p:<key>:<val>` (Put) or `g:<key>` (Get): Model.Resume.Cache driven directly.
+    Output: one token per Get, the value id or `-`; then `|` and the final contents, most recently used first. -/
+def lruOp (args : List String) : String :=
+  match args with
+  | capS :: ops =>
+    match capS.toInt? with
+    | none => "bad-op"
+    | some cap0 =>
+      let cap := if cap0 < 1 then 64 else cap0.toNat      -- NewLRUClientSessionCache: capacity < 1 means 64
+      let mkV (v : Nat) : Model.Resume.CSess := ⟨⟨0, ⟨v, 0, 0, 0, false⟩, true⟩, ⟨v, 0, 0, 0, false⟩⟩
+      let r := ops.foldl (fun (acc : Option (Model.Resume.Cache × List String)) op =>
+        match acc with
+        | none => none
+        | some (c, out) =>
+          match op.splitOn ":" with
+          | ["p", k, v] => match k.toNat?, v.toNat? with
+            | some k, some v => some (c.put cap k (mkV v), out)
+            | _, _ => none
+          | ["g", k] => match k.toNat? with
+            | some k => let (r, c') := c.get k
+                        some (c', out ++ [match r with | some cs => toString cs.sess.sid | none => "-"])
+            | none => none
+          | _ => none) (some ([], []))
+      match r with
+      | none => "bad-op"
+      | some (c, out) => " ".intercalate out ++ " | " ++ " ".intercalate (c.map fun e => s!"{e.1}={e.2.sess.sid}")
+  | _ => "bad-op"
+
 def resumeDispatch (toks : List String) : Option String :=
   match toks with
   | "resume" :: rest => some (resumeOp rest)
+  | "lru" :: rest => some (lruOp rest)
   | _ => none
 
 end Driver
